@@ -31,6 +31,7 @@ pub struct WInstModel {
     keys: u64,
     enabled: bool,
     seq: u32,
+    max_inst: i64,
 }
 
 fn run<T>(f: impl std::future::Future<Output = T>) -> T {
@@ -63,7 +64,8 @@ impl WInstModel {
         let p = run(async {
             global().factory.create_participant(0, QosKind::Default, NO_LISTENER, NO_STATUS).await.expect("participant")
         });
-        WInstModel { p: Some(p), w: W::None, keys, enabled: false, seq: 0 }
+        let max_inst = cfg["MaxInst"].as_i64().unwrap_or(0);
+        WInstModel { p: Some(p), w: W::None, keys, enabled: false, seq: 0, max_inst }
     }
     fn kd(&mut self, k: u64) -> KeyedData {
         self.seq += 1;
@@ -116,14 +118,18 @@ impl Model for WInstModel {
                     ..Default::default()
                 };
                 self.enabled = enabled;
+                let mut wq = dust_dds::infrastructure::qos::DataWriterQos::default();
+                if self.max_inst > 0 {
+                    wq.resource_limits.max_instances = dust_dds::infrastructure::qos_policy::Length::Limited(self.max_inst as i32);
+                }
                 let r: Result<W, DdsError> = run(async {
                     let pb = p.create_publisher(QosKind::Specific(qos), NO_LISTENER, NO_STATUS).await?;
                     if keyed {
                         let t = p.create_topic::<KeyedData>("WI", "KeyedData", QosKind::Default, NO_LISTENER, NO_STATUS).await?;
-                        Ok(W::Keyed(pb.create_datawriter::<KeyedData>(&t, QosKind::Default, NO_LISTENER, NO_STATUS).await?))
+                        Ok(W::Keyed(pb.create_datawriter::<KeyedData>(&t, QosKind::Specific(wq), NO_LISTENER, NO_STATUS).await?))
                     } else {
                         let t = p.create_topic::<NoKeyData>("WI", "NoKeyData", QosKind::Default, NO_LISTENER, NO_STATUS).await?;
-                        Ok(W::Keyless(pb.create_datawriter::<NoKeyData>(&t, QosKind::Default, NO_LISTENER, NO_STATUS).await?))
+                        Ok(W::Keyless(pb.create_datawriter::<NoKeyData>(&t, QosKind::Specific(wq), NO_LISTENER, NO_STATUS).await?))
                     }
                 });
                 match r {
